@@ -22,7 +22,7 @@ func init() {
 			"aggregate (lock hash, deposit data, validator registration) was verified before with tbls.Verify under PublicShares[s.ShareIdx] of the same validator, " +
 			"threshold aggregates are verified under the group key over the partials' root before they are used, and the lock-hash aggregate is checked with tbls.VerifyAggregate before it is set; " +
 			"(K3) the four peer-index/share-index conversion sites (and the helpers they call) use offset exactly 1; (K4) FROST cast/share messages are forwarded to the protocol only on paths " +
-			"that found, for every element, source id = sender's share index, the right target id and a validator index below the validator count, and that consulted and marked the per-peer dedup set.",
+			"that found, for every element, source id = sender's share index, the right target id, a validator index below the validator count and (round-1 casts) a number of Feldman commitments equal to the configured threshold, and that consulted and marked the per-peer dedup set.",
 		NotDecided: "the algebraic relations of the statement (kryptology FROST: shares reconstruct the group key, partial signatures combine); what tbls.Verify means cryptographically.",
 		Run:        c11,
 		Mutants: []Mutant{
@@ -145,6 +145,17 @@ func init() {
 				Old: "newP2PCallback(p2pNode, peers, round1P2PRecv, numVals),", New: "newP2PCallback(p2pNode, peers, round1P2PRecv, threshold),"},
 			{ID: "C11-K4-p2p-validx-bounded-by-share-count", File: "dkg/frostp2p.go", Expect: "K4",
 				Old: "int(share.GetKey().GetValIdx()) >= numVals", New: "int(share.GetKey().GetValIdx()) >= len(msg.GetShares())"},
+			// K4 commitment count (degree of the dealt polynomial) — class of seeded C11-r2A
+			{ID: "C11-K4-r1-commitments-at-most-threshold", File: "dkg/frostp2p.go", Expect: "K4|commitment count",
+				Old: "if len(cast.GetCommitments()) != threshold {", New: "if len(cast.GetCommitments()) > threshold {"},
+			{ID: "C11-K4-r1-commitments-vs-validator-count", File: "dkg/frostp2p.go", Expect: "K4|commitment-count bound",
+				Old: "if len(cast.GetCommitments()) != threshold {", New: "if len(cast.GetCommitments()) != numVals {"},
+			{ID: "C11-K4-r1-commitments-empty-accepted", File: "dkg/frostp2p.go", Expect: "K4|commitment count",
+				Old: "if len(cast.GetCommitments()) != threshold {", New: "if n := len(cast.GetCommitments()); n != threshold && n > 0 {"},
+			{ID: "C11-K4-r1-commitments-ctor-gets-validator-count", File: "dkg/frostp2p.go", Expect: "K4|commitment-count bound",
+				Old: "newBcastCallback(peers, round1CastsRecv, round2CastsRecv, threshold, numVals)", New: "newBcastCallback(peers, round1CastsRecv, round2CastsRecv, numVals, numVals)"},
+			{ID: "C11-K4-r1-commitments-threshold-plus-one", File: "dkg/dkg.go", Expect: "K4|commitment-count bound",
+				Old: "newFrostP2P(p2pNode, peerMap, caster, def.Threshold, newValidators)", New: "newFrostP2P(p2pNode, peerMap, caster, def.Threshold+1, newValidators)"},
 		},
 	})
 }
@@ -741,5 +752,5 @@ func c11(c *rt.Ctx) {
 	c.Rule("K1", 5, func() { c11K1(c) })
 	c.Rule("K2", 18, func() { c11K2(c) })
 	c.Rule("K3", 4, func() { c11K3(c) })
-	c.Rule("K4", 13, func() { c11K4(c) })
+	c.Rule("K4", 15, func() { c11K4(c) })
 }
